@@ -308,7 +308,8 @@ class InstV:
 
 STR_METHODS = {'split', 'splitlines', 'rstrip', 'lstrip', 'strip', 'startswith', 'endswith', 'removeprefix', 'removesuffix', 'replace',
                'count', 'rfind', 'find', 'upper', 'lower', 'join', 'strftime', 'format', 'encode', 'partition', 'isoformat', 'quantize',
-               'as_tuple', 'year', 'month', 'day', 'group', 'groups', 'fullmatch', 'match', 'findall', 'sub'}
+               'as_tuple', 'normalize', 'adjusted', 'is_zero', 'is_signed', 'copy_abs', 'copy_negate', 'to_integral_value', 'scaleb',
+               'is_finite', 'is_nan', 'year', 'month', 'day', 'group', 'groups', 'fullmatch', 'match', 'findall', 'sub'}
 MODEL_PRIMS = {'detach', 'reattach', '_reattach', 'clone', '_clone', '__deepcopy__', 'iter_children_formatted'}
 CTOR_PRIMS = {'from_value', 'from_default', 'from_raw_text', 'from_children', 'from_parsed_children', 'from_tokens'}
 PURE_BUILTINS = {'len', 'str', 'int', 'id', 'repr', 'bool', 'abs', 'min', 'max', 'sum', 'range', 'hasattr', 'print', 'float',
@@ -432,6 +433,9 @@ class _EvalMixin:
             return Plain('derived')
         if attr == 'items':
             return ListV(Obj(None, own, False), own, 'attr', 'items')
+        if attr in STR_METHODS:
+            # a method of str / Decimal / date on a receiver whose union type also names model classes (`other: NumberExpr | Decimal`)
+            return PrimV('plain.' + attr, Plain('derived'))
         return Unknown(f'attribute {attr}')
 
     def load_attr(self: Any, v: Any, attr: str, st: State, fr: Frame) -> list:
